@@ -158,14 +158,15 @@ def parse_race_log(prefix):
 
 
 def race_key(rep):
-    """Deduplicate by the pair of innermost kyber frames and outermost kyber entry points."""
+    """Deduplicate by the (sorted) pair of outermost kyber entry points of the two conflicting accesses."""
     sig = []
     for st in rep["stacks"][:2]:
-        ky = [f for f in st if "go.dedis.ch/kyber" in f or "kilic" in f or "circl" in f or "gnark" in f]
-        inner = ky[0] if ky else (st[0] if st else "?")
         outer = [f for f in st if "go.dedis.ch/kyber" in f]
-        outer = outer[-1] if outer else inner
-        sig.append(short(inner) + "<" + short(outer))
+        if outer:
+            sig.append(short(outer[-1]))
+        else:
+            lib = [f for f in st if "kilic" in f or "circl" in f or "gnark" in f]
+            sig.append(short(lib[-1]) if lib else (short(st[-1]) if st else "?"))
     sig.sort()
     return "|".join(sig)
 
@@ -279,7 +280,7 @@ def main():
             for v in s.get("violations") or []:
                 violations.setdefault(v["key"], dict(v, part=part["name"]))
             inconclusive += s.get("inconclusive") or []
-        if rc != 0 or s is None:
+        if (rc != 0 and not (part.get("race") and s is not None and rc == 66)) or s is None:
             jf = os.path.join(outdir, "journal.%s.txt" % part["name"])
             journal = []
             try:
@@ -386,7 +387,10 @@ def main():
         log("KNOWN-FINDING: property=%s %s [%s] (seen %d times in this run)" % (prop, kf.get("what", ""), kf["key"], v.get("count", 1)))
     for r in inconclusive[:10]:
         log("INCONCLUSIVE property=%s reason=%s" % (prop, r))
-    for v, rp in zip(new_viol, replay_paths):
+    for i, (v, rp) in enumerate(zip(new_viol, replay_paths)):
+        if i >= 30:
+            log("(+%d more violation classes, see %s)" % (len(new_viol) - 30, evfile))
+            break
         log("VIOLATION property=%s replay=%s key=%s :: %s" % (prop, rp, v["key"], v["what"]))
     log("%s %s seed=%d: verdict=%s evaluations=%d distinct_nontrivial=%d violations=%d known=%d wall=%.1fs" %
         (prop, tier, seed, verdict, evals, distinct, len(new_viol), len(known_hits), wall))
